@@ -1019,6 +1019,13 @@ func (fr *Frame) lookupLocal(name string, at *ssa.BasicBlock, phiOverride map[*s
 			if in, ok := xv.(ssa.Instruction); ok {
 				defBlock = in.Block()
 			}
+			// the reference itself must sit before the loop head or inside the loop: a reference after the
+			// loop may name a later value of the same variable (e.g. `x = y` following the loop)
+			if at != nil && !dr.Block().Dominates(at) {
+				if li, isLoop := fr.loops[at]; !isLoop || !li.blocks[dr.Block()] {
+					continue
+				}
+			}
 			if at != nil && defBlock != nil && !(defBlock.Dominates(at)) {
 				continue
 			}
@@ -1094,7 +1101,12 @@ func (fr *Frame) encodeInstr(ins ssa.Instruction, at Term, st *State) {
 			fr.places[x] = &Place{Kind: "cellfield", Heap: base.Heap, Sort: si.fields[x.Field].sort, Type: pt, Field: x.Field}
 			return
 		}
-		ref := fr.val(x.X)
+		var ref Term
+		if base, ok := fr.places[x.X]; ok && base.Kind == "struct" {
+			ref = base.Ref
+		} else {
+			ref = fr.val(x.X)
+		}
 		c.safe("nil-deref", at, Not(Eq(ref, IntLit(0))), fmt.Sprintf("%s is not nil at field access .%s", x.X.Name(), pt.Underlying().(*types.Struct).Field(x.Field).Name()))
 		heap, fs, ft := c.fieldHeap(pt, x.Field)
 		fr.places[x] = &Place{Kind: "field", Heap: heap, Ref: ref, Sort: fs, Type: ft}
@@ -1340,7 +1352,7 @@ func localStructAlloc(x *ssa.Alloc) bool {
 					return false
 				}
 			}
-		case *ssa.UnOp, *ssa.DebugRef:
+		case *ssa.UnOp, *ssa.DebugRef, *ssa.MakeClosure:
 		case *ssa.Store:
 			if r.Val == ssa.Value(x) {
 				return false
